@@ -473,11 +473,71 @@ func runC17(tb stat.TB, c c17Case) {
 				p := inflight
 				go func() { time.Sleep(p.delay); openGate(p) }()
 			}
+			// dial storm: while Stop runs, clients keep connecting (connections accepted but not yet registered when
+			// Stop looks at the connection table must not survive it)
+			var storm []net.Conn
+			var stormMu sync.Mutex
+			stormStop := make(chan struct{})
+			var stormWG sync.WaitGroup
+			if !stopped && st.N >= 3 {
+				if st.N >= 6 && !nfsClosed {
+					// many open connections make Stop's own pass over the connection table long: raise the limit at
+					// runtime and fill the table first
+					n.UpdateTuningOptions(func(t *absnfs.TuningOptions) { t.MaxConnections = 5000 })
+					var fw sync.WaitGroup
+					for g := 0; g < 16; g++ {
+						fw.Add(1)
+						go func() {
+							defer fw.Done()
+							for k := 0; k < 40; k++ {
+								if cl, err := net.DialTimeout("tcp", addr, time.Second); err == nil {
+									stormMu.Lock()
+									storm = append(storm, cl)
+									stormMu.Unlock()
+								}
+							}
+						}()
+					}
+					fw.Wait()
+					for i := 0; i < 100; i++ {
+						if cnt, _ := srv.VerifConnCounts(); cnt >= len(storm)/2 {
+							break
+						}
+						time.Sleep(5 * time.Millisecond)
+					}
+				}
+				for g := 0; g < 8; g++ {
+					stormWG.Add(1)
+					go func() {
+						defer stormWG.Done()
+						for {
+							select {
+							case <-stormStop:
+								return
+							default:
+							}
+							cl, err := net.DialTimeout("tcp", addr, 200*time.Millisecond)
+							if err != nil {
+								continue
+							}
+							stormMu.Lock()
+							storm = append(storm, cl)
+							stormMu.Unlock()
+						}
+					}()
+				}
+				time.Sleep(time.Duration(st.N) * 300 * time.Microsecond)
+				nt = true
+			}
 			for rep := 0; rep < 2; rep++ {
 				done := make(chan error, 1)
 				go func() { done <- srv.Stop() }()
 				select {
 				case err := <-done:
+					if rep == 0 {
+						close(stormStop)
+						stormWG.Wait()
+					}
 					if err != nil {
 						viol("stop-reports-error", "step#%d: Server.Stop (call %d) returned %v", si, rep+1, err)
 					}
@@ -486,6 +546,23 @@ func runC17(tb stat.TB, c c17Case) {
 				}
 			}
 			stopped = true
+			select {
+			case <-stormStop:
+			default:
+				close(stormStop)
+				stormWG.Wait()
+			}
+			for _, cl := range storm {
+				// a connection made while Stop was running is either never served or closed by Stop
+				xid++
+				if c17Null(cl, xid, 500*time.Millisecond) {
+					viol("served-after-stop", "step#%d: a connection dialled while Stop was running still answers a NULL call after Stop returned", si)
+				}
+				cl.Close()
+			}
+			if len(storm) > 0 {
+				stat.Label("dial_storm_during_stop", 1)
+			}
 			if inflight != nil {
 				openGate(inflight)
 				if !c17ClosedWithin(inflight.conn, 2*time.Second) {
